@@ -227,13 +227,117 @@ Proof.
   destruct Hd as (_ & _ & L & _). rewrite L. reflexivity.
 Qed.
 
+(* ------------------------------------------------------------------ objects come and go (C++ class) *)
+(* the object of a slot whose content is inline is exchanged for another object
+   with inline content (its storage is given up, a new object is constructed);
+   the capacity of the slot may change *)
+Lemma exchange_inline_slot w i a a' d' :
+  winv w -> nth_error (wids w) i = Some a -> external a = false ->
+  external a' = false -> idok (wh w) a' d' ->
+  winv (mkw (wh w) (set_nth (wids w) i a')) /\
+  absw (mkw (wh w) (set_nth (wids w) i a')) = set_nth (absw w) i (ics a', d').
+Proof.
+  intros (Hh & Hids & Hdis & Hown) Hi Ea Ea' Hok.
+  pose proof (nth_error_lt _ _ _ Hi) as Hlt.
+  split.
+  - unfold winv. cbn [wh wids]. split; [exact Hh|]. split; [|split].
+    + intros k id Hk. destruct (Nat.eq_dec k i) as [E|E].
+      * subst k. rewrite nth_error_set_nth_eq in Hk by auto. inversion Hk; subst. eauto.
+      * rewrite nth_error_set_nth_neq in Hk by auto. eauto.
+    + intros k j x y Hk Hj Hkj Ex Ey.
+      destruct (Nat.eq_dec k i) as [E1|E1].
+      * subst k. rewrite nth_error_set_nth_eq in Hk by auto. inversion Hk; subst x. congruence.
+      * destruct (Nat.eq_dec j i) as [E2|E2].
+        -- subst j. rewrite nth_error_set_nth_eq in Hj by auto. inversion Hj; subst y. congruence.
+        -- rewrite nth_error_set_nth_neq in Hk, Hj by auto. apply (Hdis k j); auto.
+    + intros t Ht. destruct (Hown t Ht) as (k & id & Hk & Ek & Et).
+      assert (k <> i) by (intros X; subst k; rewrite Hi in Hk; inversion Hk; subst id; congruence).
+      exists k, id. rewrite nth_error_set_nth_neq by auto. auto.
+  - unfold absw. cbn [wh wids]. rewrite map_set_nth. f_equal.
+    unfold absid. rewrite (acontent_ok _ _ _ Hok). reflexivity.
+Qed.
+
+(* ~identifier(): the slot holds no name and no allocation afterwards *)
+Lemma fini_step w i id :
+  winv w -> nth_error (wids w) i = Some id ->
+  exists h1 id1, xfini (wh w) id = Ok (h1, id1, true) /\
+    winv (mkw h1 (set_nth (wids w) i id1)) /\
+    absw (mkw h1 (set_nth (wids w) i id1)) = set_nth (absw w) i unset /\
+    external id1 = false.
+Proof.
+  intros Hw Hi. pose proof Hw as (Hh & Hids & _).
+  destruct (Hids _ _ Hi) as [d Hd].
+  pose proof (iset_closed (wh w) id d None (Some 0) Hd Hh I) as Hc.
+  unfold sset in Hc. destruct (Nat.ltb_spec lim16 0) as [X|_]; [inversion X|].
+  destruct Hc as (id' & E1 & E2).
+  destruct (replace_slot w i id d id' _ _ Hw Hi Hd E2) as [A C].
+  eexists _, id'. split; [exact E1|]. split; [exact A|]. split; [exact C|].
+  destruct E2 as (_ & N2 & _). apply ext_false. rewrite N2. simpl. lia.
+Qed.
+
+(* ~identifier() followed by identifier(sz) on new storage for the slot *)
+Lemma reinit_step w i id sz :
+  winv w -> nth_error (wids w) i = Some id -> 16 <= sz ->
+  exists h1 id1 fresh, xfini (wh w) id = Ok (h1, id1, true) /\ ident_init sz = Some fresh /\
+    external fresh = false /\
+    winv (mkw h1 (set_nth (wids w) i fresh)) /\
+    absw (mkw h1 (set_nth (wids w) i fresh)) = set_nth (absw w) i unset /\
+    idok h1 fresh [] /\ imax fresh = Nat.min (sz - 4) 252.
+Proof.
+  intros Hw Hi Hsz.
+  destruct (fini_step w i id Hw Hi) as (h1 & id1 & E1 & A & C & Ee).
+  destruct (ident_init_ok sz Hsz) as (fresh & F1 & F2 & F3 & _ & F5 & F6).
+  assert (Hf : idok h1 fresh []) by (apply (idok_inline_heap heap0); auto).
+  assert (Hi1 : nth_error (wids (mkw h1 (set_nth (wids w) i id1))) i = Some id1).
+  { cbn [wids]. apply nth_error_set_nth_eq. eapply nth_error_lt; eauto. }
+  destruct (exchange_inline_slot _ i id1 fresh [] A Hi1 Ee F3 Hf) as [A2 C2].
+  cbn [wh wids] in A2, C2. rewrite set_nth_set_nth in A2, C2.
+  exists h1, id1, fresh. split; [exact E1|]. split; [exact F1|]. split; [exact F3|].
+  split; [exact A2|]. split; [|split; [exact Hf|exact F6]].
+  rewrite C2, C, set_nth_set_nth, F5. reflexivity.
+Qed.
+
+(* ~identifier() on slot i, then identifier(const identifier &) from slot j on 16 bytes of
+   new storage: the new object holds the source's name, its capacity is 12 *)
+Lemma xctor_step w i j id from df :
+  winv w -> i <> j -> nth_error (wids w) i = Some id -> nth_error (wids w) j = Some from ->
+  idok (wh w) from df ->
+  exists h1 id1 h2 id',
+    xfini (wh w) id = Ok (h1, id1, true) /\ xcopy_init h1 from = Ok (h2, id', true) /\
+    winv (mkw h2 (set_nth (wids w) i id')) /\
+    absw (mkw h2 (set_nth (wids w) i id')) = set_nth (absw w) i (ics from, df) /\
+    imax id' = 12.
+Proof.
+  intros Hw E Ei Ej Hdf.
+  destruct (reinit_step w i id 16 Hw Ei (le_n 16)) as (h1 & id1 & fresh & E1 & F1 & F3 & A2 & C2 & Hf & F6).
+  exists h1, id1. unfold xcopy_init, SIZEOF_IDENT. rewrite F1.
+  set (w2 := mkw h1 (set_nth (wids w) i fresh)) in *.
+  assert (Hi2 : nth_error (wids w2) i = Some fresh).
+  { cbn [wids w2]. apply nth_error_set_nth_eq. eapply nth_error_lt; eauto. }
+  assert (Hj2 : nth_error (wids w2) j = Some from).
+  { cbn [wids w2]. rewrite nth_error_set_nth_neq by auto. exact Ej. }
+  pose proof A2 as (Hh2 & Hids2 & _).
+  destruct (Hids2 _ _ Hj2) as [df2 Hdf2].
+  destruct (icopy_closed (wh w2) fresh [] from df2 Hf Hdf2 Hh2) as (id' & G1 & G2).
+  cbn [wh w2] in G1.
+  destruct (replace_slot w2 i fresh [] id' (ics from) df2 A2 Hi2 Hf G2) as [A3 C3].
+  assert (Edf : df2 = df).
+  { pose proof (absw_nth w2 j from df2 Hj2 Hdf2) as X. rewrite C2 in X.
+    rewrite nth_error_set_nth_neq in X by auto. rewrite (absw_nth _ _ _ _ Ej Hdf) in X. congruence. }
+  cbn [wh wids w2] in A3, C3. rewrite set_nth_set_nth in A3, C3.
+  eexists _, id'. split; [exact E1|]. split; [exact G1|]. split; [exact A3|].
+  split.
+  - rewrite C3. fold w2. rewrite C2, set_nth_set_nth, Edf. reflexivity.
+  - destruct G2 as (_ & _ & N3 & _). rewrite N3, F6. reflexivity.
+Qed.
+
 (* ------------------------------------------------------------------ one step *)
 Lemma mstep_refines w o :
   winv w -> op_ok o ->
   exists w' out, mstep w o = Ok (w', out) /\ winv w' /\ sstep (absw w) o = (absw w', pout out).
 Proof.
   intros Hw Hok. pose proof Hw as (Hh & Hids & Hdis & Hown).
-  destruct o as [i name len|i [j|]|i name nlen|i j|len|len]; cbn [mstep sstep op_ok] in *.
+  destruct o as [i name len|i [j|]|i name nlen|i j|len|len|i name len|i name nlen|i|i j|i j|i total]; cbn [mstep sstep op_ok] in *.
   - (* set *)
     destruct (nth_error (wids w) i) as [id|] eqn:Ei.
     2:{ rewrite (absw_none _ _ Ei). exists w, ORefused. auto. }
@@ -316,6 +420,73 @@ Proof.
     + unfold ladder in Ec. revert Ec. generalize (len + 40). intros n.
       repeat match goal with |- context [if ?a <? ?b then _ else _] => destruct (Nat.ltb_spec a b) end; lia.
     + lia.
+  - (* C++ set_name: mpt_identifier_set *)
+    unfold xset_name.
+    destruct (nth_error (wids w) i) as [id|] eqn:Ei.
+    2:{ rewrite (absw_none _ _ Ei). exists w, ORefused. auto. }
+    destruct (Hids _ _ Ei) as [d Hd]. rewrite (absw_nth _ _ _ _ Ei Hd).
+    pose proof (iset_closed (wh w) id d name len Hd Hh Hok) as Hc.
+    destruct (sset (ics id, d) name len) as [v' [|]].
+    + destruct Hc as (id' & E1 & E2). rewrite E1. cbn [lift_set bind].
+      destruct (replace_slot w i id d id' (fst v') (snd v') Hw Ei Hd E2) as [A C].
+      eexists _, ODone. split; [reflexivity|]. split; [exact A|].
+      rewrite C. destruct v'; reflexivity.
+    + destruct Hc as [E1 E2]. rewrite E1. cbn [lift_set bind].
+      rewrite (set_nth_same _ _ _ Ei).
+      exists w, ORefused. destruct w as [h0 ids0]. simpl. split; [reflexivity|]. split; [exact Hw|].
+      subst v'. rewrite set_nth_same; [reflexivity|]. apply (absw_nth (mkw h0 ids0)); auto.
+  - (* C++ equal: compare = 0 *)
+    destruct (nth_error (wids w) i) as [id|] eqn:Ei.
+    2:{ rewrite (absw_none _ _ Ei). exists w, ORefused. auto. }
+    destruct (Hids _ _ Ei) as [d Hd]. rewrite (absw_nth _ _ _ _ Ei Hd).
+    destruct (icompare_closed (wh w) id d name nlen Hd Hok) as (c & E1 & E2).
+    unfold xequal. rewrite E1. cbn [bind]. eexists w, _. split; [reflexivity|]. split; [exact Hw|].
+    rewrite <- E2. destruct c; reflexivity.
+  - (* C++ name *)
+    destruct (nth_error (wids w) i) as [id|] eqn:Ei.
+    2:{ rewrite (absw_none _ _ Ei). exists w, ORefused. auto. }
+    destruct (Hids _ _ Ei) as [d Hd]. rewrite (absw_nth _ _ _ _ Ei Hd).
+    unfold xname. cbn [fst snd].
+    destruct (N.eqb (ics id) CS_UTF8); cbn [negb].
+    + rewrite (idata_ok _ _ _ Hd). cbn [bind].
+      eexists w, _. split; [reflexivity|]. split; [exact Hw|reflexivity].
+    + eexists w, _. split; [reflexivity|]. split; [exact Hw|reflexivity].
+  - (* C++ operator= *)
+    destruct (nth_error (wids w) i) as [id|] eqn:Ei.
+    2:{ rewrite (absw_none _ _ Ei). exists w, ORefused. auto. }
+    destruct (Hids _ _ Ei) as [d Hd]. rewrite (absw_nth _ _ _ _ Ei Hd).
+    destruct (nth_error (wids w) j) as [from|] eqn:Ej.
+    2:{ rewrite (absw_none _ _ Ej). exists w, ORefused. auto. }
+    destruct (Hids _ _ Ej) as [df Hdf]. rewrite (absw_nth _ _ _ _ Ej Hdf).
+    destruct (Nat.eqb_spec i j) as [E|E].
+    + subst j. rewrite Ei in Ej. inversion Ej; subst from. cbv zeta.
+      exists w, ODone. split; [reflexivity|]. split; [exact Hw|].
+      rewrite set_nth_same; [reflexivity|]. apply absw_nth; assumption.
+    + destruct (icopy_closed (wh w) id d from df Hd Hdf Hh) as (id' & E1 & E2).
+      unfold xassign. rewrite E1. cbn [bind].
+      destruct (replace_slot w i id d id' (ics from) df Hw Ei Hd E2) as [A C].
+      eexists _, ODone. split; [reflexivity|]. split; [exact A|].
+      rewrite C. reflexivity.
+  - (* C++: destructor on slot i, then copy construction from slot j *)
+    destruct (nth_error (wids w) i) as [id|] eqn:Ei.
+    2:{ rewrite (absw_none _ _ Ei). exists w, ORefused. auto. }
+    destruct (Hids _ _ Ei) as [d Hd]. rewrite (absw_nth _ _ _ _ Ei Hd).
+    destruct (nth_error (wids w) j) as [from|] eqn:Ej.
+    2:{ rewrite (absw_none _ _ Ej). exists w, ORefused. auto. }
+    destruct (Hids _ _ Ej) as [df Hdf]. rewrite (absw_nth _ _ _ _ Ej Hdf).
+    destruct (Nat.eqb_spec i j) as [E|E].
+    + exists w, ORefused. auto.
+    + destruct (xctor_step w i j id from df Hw E Ei Ej Hdf) as (h1 & id1 & h2 & id' & E1 & G1 & A3 & C3 & _).
+      rewrite E1. cbn [bind]. rewrite G1. cbn [bind].
+      eexists _, ODone. split; [reflexivity|]. split; [exact A3|].
+      rewrite C3. reflexivity.
+  - (* C++: destructor on slot i, then identifier(total) *)
+    destruct (nth_error (wids w) i) as [id|] eqn:Ei.
+    2:{ rewrite (absw_none _ _ Ei). exists w, ORefused. auto. }
+    destruct (Hids _ _ Ei) as [d Hd]. rewrite (absw_nth _ _ _ _ Ei Hd).
+    destruct (reinit_step w i id total Hw Ei Hok) as (h1 & id1 & fresh & E1 & F1 & F3 & A2 & C2 & Hf & _).
+    unfold xinit. rewrite F1, E1. cbn [bind].
+    eexists _, ODone. split; [reflexivity|]. split; [exact A2|]. rewrite C2. reflexivity.
 Qed.
 
 (* ------------------------------------------------------------------ histories *)
